@@ -10,22 +10,30 @@ import cache_common as cc
 META = dict(
     level_claimed=dict(
         category="proof",
-        text="Lean 4 theorems about the executable mirror of fscache.Cache (all remote trees, op lists of any length, all "
-             "spellings): PROVED at full strength: readDir_nodup (the merged listing never lists a name twice), "
-             "read_after_write (data written through the cache is what ReadFile/Reader return, whatever the remote holds), "
-             "view_is_subpath (a child view answers what the cache answers at base/path). The full read-your-writes "
-             "statement is DISPROVED for the code as it is (ryw_false: one machine-checked witness per finding class "
-             "KF-C07-1..6, recorded in known_findings.d/C07.json and replayed on every run) and PROVED as ryw_partial for "
-             "the class of histories made of WriteFile / Writer / MkdirAll in which every operation also succeeds when "
-             "applied directly (see level_note). The model is tied to /repo on every run by a line-by-line differential "
-             "with reads of all seven kinds after every mutation; decidable defect predicates classify every history: "
-             "outside all classes implementation = model = direct application, inside a class implementation = model.",
+        text="Lean 4 theorems about the executable mirror of fscache.Cache (Goat/Model/Cache.lean; all remote trees, "
+             "histories of any length, all path spellings, child views of any depth). PROVED AT FULL STRENGTH: "
+             "readDir_nodup ('created directories are listed once': after every history, Commits and injected failures "
+             "included, the merged listing never lists a name twice), read_after_write ('written data is returned': "
+             "whatever the remote holds and whatever is journalled, through any handle and spelling reaching the path), "
+             "view_is_subpath / view_of_view (child views). The full read-your-writes statement is DISPROVED for the "
+             "code as it is (ryw_false; findings_witnessed evaluates one witness per finding class KF-C07-1..6, replayed "
+             "on the Go code on every run) and PROVED as ryw_partial: all seven read-type operations (IsExist IsFile IsDir "
+             "ReadFile Reader ReadDir Lstat), through the cache or any child view, answer exactly what the FS "
+             "specification answers on the direct tree after any history of WriteFile / Writer / MkdirAll / CopyFile and "
+             "of Remove / RemoveAll of nodes that exist only in the buffer in which every operation also succeeds when "
+             "applied directly (the negation of the defect predicates; for reads on the cache itself additionally: a "
+             "climbing path still climbs after CleanPath, the negation of KF-C07-6). The model is tied to /repo on every "
+             "run by a line-by-line differential with reads of all seven kinds after every mutation and a reference "
+             "oracle; decidable defect predicates classify every history: outside all classes implementation = model = "
+             "direct application, inside a class implementation = model.",
         design_ref="DESIGN.md 3 C07"),
-    level_note="KNOWN FINDINGS: read-your-writes fails on the current code in 6 classes (removes are invisible while the "
-               "remote still has the node; the buffer does not know the remote's node kinds; buffer-or-remote source "
-               "resolution of copies; rooted climbing paths), listed with witnesses; the check exits 0 printing them and "
-               "still reports any deviation from the model and any deviation from direct application outside the classes. "
-               "Reads are judged up to the first deviation of a Commit (C06) in a history. Trusted: as C06.",
+    level_note="KNOWN FINDINGS: read-your-writes fails on the current code in 6 classes (removes do not hide nodes the "
+               "remote still has; the buffer does not know the remote's node kinds; buffer-OR-remote source resolution "
+               "of directory copies; copies overwrite; rooted climbing paths), listed with witnesses in "
+               "known_findings.d/C07.json; the check exits 0 printing them and still reports any deviation from the "
+               "model and any deviation from direct application outside the classes. Reads are judged up to the first "
+               "deviation of a Commit (C06) in a history. Trusted: as C06 (Lean kernel; the model's correspondence; "
+               "empirical completeness of the defect predicates; memfs; sequential model of fshelper.Copy).",
     technique="Lean 4 proof (overlay invariant over histories through the C01 refinement; disproof by evaluated "
               "witnesses) + differential correspondence + reference oracle + decidable defect-class classification",
 )
@@ -39,7 +47,7 @@ def run(ctx):
         sides = cc.Sides(ctx)
         cc.replay_findings(ctx, sides, PROP)
         concrete = cc.corpus(ctx, sides, PROP)
-        plan = [("gen", ctx.pick(1600, 110000)), ("genryw", ctx.pick(500, 30000)), ("genclean", ctx.pick(200, 8000))]
+        plan = [("gen", ctx.pick(1600, 40000)), ("genryw", ctx.pick(500, 12000)), ("genclean", ctx.pick(200, 4000))]
         ctx.rule = ("corpus/C07 (witnesses of the findings) first; then the generators of C06 (see evidence/C06.json `rule`): "
                     "random histories over a populated memfs remote and a cache with child views, every mutating call followed "
                     "by 1..3 reads of the 7 kinds on the touched / neighbouring paths through random handles and sometimes the "
@@ -50,7 +58,7 @@ def run(ctx):
         c2, results = cc.campaign(ctx, sides, PROP, plan)
         concrete |= c2
         cc.account(ctx, results)
-        concrete |= cc.oracle(ctx, sides, PROP, [("oracle", ctx.pick(1200, 50000)), ("oracleryw", ctx.pick(400, 15000))])
+        concrete |= cc.oracle(ctx, sides, PROP, [("oracle", ctx.pick(1200, 16000)), ("oracleryw", ctx.pick(400, 6000))])
     except RuntimeError as e:
         ctx.fatal(str(e))
     ctx.assumptions += [
